@@ -535,6 +535,20 @@ def _race_reports(stderr, tool):
     return reps
 
 
+def _thr_first_init(out, exe, vname, procs, tool="tsan"):
+    """Fresh processes whose very first library calls are made by 16 threads at once."""
+    env = core.san_env(vname)
+    env["TSAN_OPTIONS"] = "halt_on_error=0:exitcode=0:report_signal_unsafe=0"
+    futs = [core.pool().submit(core.run_driver, [exe, "--mode", "first-init", "--seed", str(out.seed * 1000 + i), "--variant", vname, "--threads", "16"], env, 600) for i in range(procs)]
+    for f in futs:
+        rr = f.result()
+        out.absorb(rr, vname + "-first-init")
+        for suffix, text in _race_reports(rr.stderr, tool):
+            out.violation("C18:%s:%s:first-concurrent-init:%s" % (tool, vname, suffix), detail={"report": text}, replay={"driver": "drv_thr", "mode": "first-init", "variant": vname, "seed": out.seed})
+    out.evaluations += procs
+    out.distinct_extra += procs
+
+
 def _thr_run(out, exe, vname, reps, tool, shards=4, wrapper=(), threads=16, timeout=1800):
     env = core.san_env(vname)
     env["TSAN_OPTIONS"] = "halt_on_error=0:exitcode=0:report_signal_unsafe=0:history_size=4"
@@ -557,7 +571,7 @@ def _thr_run(out, exe, vname, reps, tool, shards=4, wrapper=(), threads=16, time
 def c18(out):
     out.rule = ("repetition index -> workload (distinct objects / shared read-only key schedules and parallel-ECB objects / init+cleanup storm) x back-end cap; 16 threads released by a barrier run generated CTR and parallel "
                 "histories, reads on shared schedules, or init/use/cleanup loops with random yields and sleeps between calls; oracles: ThreadSanitizer (gcc, thorough: clang; helgrind on the shipped build) must print no report, "
-                "and every thread's transcript must equal the transcript of the same work computed sequentially beforehand. Evidence counts threads simultaneously inside library calls and distinct interleaving signatures. "
+                "and every thread's transcript must equal the transcript of the same work computed sequentially beforehand; additionally fresh processes make their very first library calls (incl. the CPU probe) from 16 threads at once. Evidence counts threads simultaneously inside library calls and distinct interleaving signatures. "
                 "distinct = distinct repetition contents (history hashes / seeds).")
     # positive control: the detector must see a deliberate race
     exe = build_driver("drv_thr", ["drv_thr.c"] + HIST, "tsan", libs=["-pthread"])
@@ -568,6 +582,7 @@ def c18(out):
     if not fired:
         out.inconclusive.append({"reason": "ThreadSanitizer positive control did not report the deliberate race"})
     _thr_run(out, exe, "tsan", n(out, 240, 6000), "tsan")
+    _thr_first_init(out, exe, "tsan", n(out, 48, 600))
     if out.tier == "thorough":
         exe = build_driver("drv_thr", ["drv_thr.c"] + HIST, "tsanclang", libs=["-pthread"])
         _thr_run(out, exe, "tsanclang", 3000, "tsan")
@@ -578,6 +593,7 @@ def c18(out):
     else:
         exe = build_driver("drv_thr", ["drv_thr.c"] + HIST, "prod", libs=["-pthread"])
         _thr_run(out, exe, "prod", n(out, 600, 600), "plain", shards=4)
+        _thr_first_init(out, exe, "prod", n(out, 48, 48), tool="plain")
     if out.maxima.get("max_threads_simultaneously_inside_library_calls", 0) < 2:
         out.inconclusive.append({"reason": "threads never overlapped inside library calls"})
     out.assumptions += ["interleavings are sampled, not enumerated; TSan's happens-before analysis reports a conflicting unsynchronised access pair whenever the two accesses are not ordered, without needing the exact racy timing",
